@@ -38,6 +38,8 @@ pub struct Gen<'a> {
     /// one tree in `spine_odds` is a deep spine (depth up to 13: walkdir keeps at most 10 directory
     /// handles open and switches the representation of the older ones beyond that)
     pub spine_odds: usize,
+    /// a base that is a link to a directory, in percent of the draws that allow one
+    pub link_base_pct: usize,
 }
 
 fn esc(name: &str) -> String {
@@ -63,6 +65,7 @@ impl<'a> Gen<'a> {
             tier,
             names,
             spine_odds: 50,
+            link_base_pct: 7,
         }
     }
 
@@ -459,6 +462,9 @@ impl<'a> Gen<'a> {
 
     /// A glob expression (relative, no dot / root prefix) aimed at the entries below `base`.
     pub fn glob_expr(&mut self, model: &Model, base: &str) -> String {
+        // (a base that is a link to a directory lists what its target lists)
+        let canon = model.resolve(base, true).unwrap_or_else(|_| base.to_string());
+        let base = canon.as_str();
         // whole-glob special shapes
         if self.rng.chance(12, 100) {
             let a = esc(self.names[0]);
@@ -675,6 +681,8 @@ impl<'a> Gen<'a> {
 
     /// One negation expression over the root-relative path space below `base`.
     pub fn not_expr(&mut self, model: &Model, base: &str) -> String {
+        let canon = model.resolve(base, true).unwrap_or_else(|_| base.to_string());
+        let base = canon.as_str();
         let below: Vec<&String> = model.nodes.keys().filter(|p| is_below(p, base)).collect();
         let pick_name = |g: &mut Self| -> String {
             if !below.is_empty() && g.rng.chance(8, 10) {
@@ -824,7 +832,7 @@ impl<'a> Gen<'a> {
     /// A base directory for a walk: usually a plain directory, sometimes (if allowed) a symbolic
     /// link that resolves to a directory.
     pub fn pick_base(&mut self, model: &Model, root_bias: usize, allow_link: bool) -> String {
-        if allow_link && self.rng.chance(7, 100) {
+        if allow_link && self.rng.chance(self.link_base_pct, 100) {
             let plain = Self::plain_dirs(model);
             let links: Vec<String> = model
                 .nodes
